@@ -721,6 +721,46 @@ fn marathon_schedule(rng: &mut StdRng) -> Schedule {
             steps.push(Step { op: "reply".into(), id: g, which: String::new(), arg: i, role: String::new() });
         }
         steps.push(s("poll", 0));
+        let mut got = n; // requests this replier has been handed so far
+        // a short-lived requestor that fails with two replies outstanding: the replies are then addressed to
+        // nobody, which is nobody's fault -- the replier stays bound and the others are served as before
+        if g <= 6 {
+            let x = 2 + g;
+            steps.push(s("reg_cl", x));
+            steps.push(s("poll", 0));
+            for _ in 0..2 {
+                steps.push(Step { op: "request".into(), id: x, which: "reqid".into(), arg: 1, role: String::new() });
+            }
+            steps.push(s("poll", 0));
+            steps.push(Step { op: "break_cl".into(), id: x, which: ["ready", "send", "flush"][(g % 3) as usize].into(), arg: 0, role: String::new() });
+            steps.push(s("poll", 0));
+            for i in [got + 1, got + 2] {
+                steps.push(Step { op: "reply".into(), id: g, which: String::new(), arg: i, role: String::new() });
+                steps.push(s("poll", 0));
+            }
+            got += 2;
+        }
+        // a replier that now and then sends something that cannot be routed (no tag, an unknown one, a mangled
+        // one, a frame that is no message), two dozen times over its life, between good exchanges
+        if g % 3 == 2 {
+            for j in 0..24u64 {
+                let tag = ["missing", "unknown", "malformed", "junk"][(j % 4) as usize];
+                steps.push(Step { op: "bad_reply".into(), id: g, which: tag.into(), arg: 0, role: String::new() });
+                steps.push(s("poll", 0));
+                if j % 6 == 5 {
+                    steps.push(Step { op: "request".into(), id: 1, which: "reqid".into(), arg: 1, role: String::new() });
+                    steps.push(s("poll", 0));
+                    got += 1;
+                    steps.push(Step { op: "reply".into(), id: g, which: String::new(), arg: got, role: String::new() });
+                    steps.push(s("poll", 0));
+                }
+            }
+        }
+        // ... and after all that an ordinary exchange
+        steps.push(Step { op: "request".into(), id: 1 + g % 2, which: "reqid".into(), arg: 1, role: String::new() });
+        steps.push(s("poll", 0));
+        steps.push(Step { op: "reply".into(), id: g, which: String::new(), arg: got + 1, role: String::new() });
+        steps.push(s("poll", 0));
         steps.push(s(if g % 3 == 0 { "sv_err" } else { "sv_end" }, g));
         steps.push(s("poll", 0));
     }
@@ -731,8 +771,22 @@ fn arg(args: &[String], name: &str) -> Option<String> {
     args.iter().position(|a| a == name).and_then(|i| args.get(i + 1).cloned())
 }
 
+struct NullLogger;
+impl log::Log for NullLogger {
+    fn enabled(&self, _: &log::Metadata) -> bool {
+        true
+    }
+    fn log(&self, r: &log::Record) {
+        // format the record (arguments with side effects or panicking Display impls are part of the code under test)
+        let _ = std::hint::black_box(format!("{}", r.args()).len());
+    }
+    fn flush(&self) {}
+}
+static NULL_LOGGER: NullLogger = NullLogger;
+
 fn main() {
     quiet_panics();
+    let _ = log::set_logger(&NULL_LOGGER);
     let args: Vec<String> = std::env::args().collect();
     let out = arg(&args, "--out").expect("--out");
     let log = EvLog::to_file(&out).expect("open out");
@@ -770,6 +824,9 @@ fn main() {
         log.reset(k as u64 + 1, json!({"sched": s.id}));
         let mut run = Run::new(log.clone(), seed.wrapping_add(k as u64));
         // every fourth schedule runs with the clock jumping ahead between its steps (see router_pubsub)
+        // The router logs what it does to failing peers.  Whether anybody listens must not matter: schedules
+        // alternate between no logging at all (macro arguments are then not even evaluated) and everything on.
+        log::set_max_level(if (k / 2) % 2 == 0 { log::LevelFilter::Off } else { log::LevelFilter::Trace });
         run.tick = match k % 8 {
             1 => Some(&[7, 7, 61, 7, 3601]),
             5 => Some(&[1, 2, 4, 8, 16, 32, 64, 128, 86_400]),
